@@ -571,7 +571,7 @@ func collectSentinels(v *Val, ctx int, unexp bool, safe, unsafe *[][]byte) {
 		} else {
 			add(unsafe, unsafeStr(v.ID, 0))
 		}
-	case KSafeStr, KSafeStringer:
+	case KSafeStr, KSafeStringer, KAnonEmbedSafe:
 		if unexp && ctx == 0 {
 			// a SafeValue reached through an unexported field cannot be interfaced: it is
 			// (conservatively) treated as unsafe by the library; no expectation either way
@@ -676,6 +676,45 @@ func streamWrappers(rep *Report, tier string, seed uint64) {
 				}
 				xv := x.Build(0)
 				var orc []string
+				// "the outermost decides" on every route to the printer: wrappers nested directly inside each other, given as
+				// an operand, as a reflect.Value operand, in an interface-typed struct field and behind a pointer to that struct
+				if i%16 == 0 {
+					word := unsafeStr(i%40, 0)
+					if !strings.ContainsAny(word, "\n‹›") {
+						for mask := 0; mask < 14; mask++ {
+							// nestings of depth 2 and 3: bit j set = Unsafe at level j (level 0 outermost)
+							depth := 2 + mask/8
+							bits := mask % 8
+							if depth == 2 {
+								bits = mask % 4
+							}
+							var w interface{} = word
+							for j := depth - 1; j >= 0; j-- {
+								if bits&(1<<uint(j)) != 0 {
+									w = redact.Unsafe(w)
+								} else {
+									w = redact.Safe(w)
+								}
+							}
+							outerUnsafe := bits&1 != 0
+							want := word
+							if outerUnsafe {
+								want = "‹" + word + "›"
+							}
+							for ri, route := range []struct {
+								arg       interface{}
+								pre, post string
+							}{{w, "", ""}, {reflect.ValueOf(w), "", ""}, {inner{A: w}, "{", " <nil>}"}, {&inner{A: w}, "&{", " <nil>}"}} {
+								out, pm := rSprint([]interface{}{route.arg})
+								if pm != "" {
+									orc = append(orc, "C11:print call panicked: "+pm)
+								} else if string(out) != route.pre+want+route.post {
+									orc = append(orc, fmt.Sprintf("C06:nested wrappers (depth %d, pattern %b, route %d): got %q want %q", depth, bits, ri, out, route.pre+want+route.post))
+								}
+							}
+						}
+					}
+				}
 				// user methods that call back into the printer (nested Print/Printf) while a wrapper is in force
 				if r.Chance(15) {
 					cb := callbackFmtr{safe: safeStr(i % 50), unsafe: unsafeStr(i%50, 0), usePrintf: r.Bool(), join: r.Intn(4)}
@@ -942,6 +981,18 @@ func streamCompose(rep *Report, tier string, seed uint64) {
 					cont, want = []redact.RedactableString{rs, rs}, "["+string(rs)+" "+string(rs)+"]"
 				case 4:
 					cont, want = &inner{A: arg}, "&{"+string(rs)+" <nil>}"
+				}
+				// below a pointer that is itself below the top level, under verbs the pointer rendering rejects (the bad-verb
+				// report prints the pointee again): the redactable is still reproduced verbatim
+				if i%8 == 0 && len(rs) > 0 {
+					for _, bd := range []string{"%s", "%q", "%t", "%e", "%c", "%U"} {
+						o5, pm5 := rSprintf(bd, []interface{}{struct{ P *inner }{&inner{A: arg}}})
+						if pm5 != "" {
+							orc = append(orc, "C11:panic: "+pm5)
+						} else if !bytes.Contains(o5, []byte(rs)) {
+							orc = append(orc, fmt.Sprintf("C08:redactable %q below a nested pointer under %s is not reproduced verbatim: %q", rs, bd, o5))
+						}
+					}
 				}
 				o2, pm2 := rSprint([]interface{}{cont})
 				if pm2 != "" {
